@@ -25,6 +25,9 @@ ASSUME = ['vsched models pthread semantics (spurious wake-ups allowed, signal wa
 ADDR_SETS = [[64, 64 + 4096, 64 + 8192, 128], [8, 1032 * 4 + 8 - 4096 + 4096, 200, 2056 * 4 + 8], [0, 4096, 8192, 12288], [40, 48, 4136, 56]]
 
 
+VALS64 = (0, 0, 0, 1, 7, 1 << 32, 1 << 32, (1 << 32) | 1, 7 << 32, 1 << 63)
+
+
 def gen_case(ch, params):
     T = 2 + ch.below(4)
     addrs = list(ch.pick(ADDR_SETS))[:2 + ch.below(3)]
@@ -36,17 +39,20 @@ def gen_case(ch, params):
             a = ch.pick(addrs)
             if k < 4:
                 w64 = ch.below(3) == 0
-                exp = ch.pick((0, 0, 0, 1, 7))
+                # 64-bit waits / stores also use values that agree in the low half and differ only in bits 32..63
+                exp = ch.pick(VALS64) if w64 else ch.pick((0, 0, 0, 1, 7))
                 timeout = ch.pick((-1, -1, 0, 1000000))
                 ops.append([1 if w64 else 0, a, exp, timeout])
             elif k < 7:
                 ops.append([2, a, ch.pick((0, 1, 1, 2, 0xffffffff)), 0])
+            elif ch.below(4) == 0:
+                ops.append([4, a, ch.pick(VALS64), 0])
             else:
-                ops.append([4 if ch.below(4) == 0 else 3, a, ch.pick((0, 1, 7)), 0])
+                ops.append([3, a, ch.pick((0, 1, 7)), 0])
         threads[str(t)] = ops
     nd = ch.pick((0, 8, 40, 120, 300))
     dec = bytes(ch.below(256) for _ in range(nd)).hex()
-    return {'threads': threads, 'addrs': addrs, 'decisions': dec, 'spurious': ch.pick((0, 1, 3))}
+    return {'threads': threads, 'addrs': addrs, 'decisions': dec, 'spurious': ch.pick((0, 1, 3)), 'imported': ch.below(4) == 0}
 
 
 def evaluate(case):
